@@ -89,13 +89,14 @@ func checkArity(fn *Function, args []Object) Object {
 func attributeExists(args ...Object) Object {
 	path := args[0]
 
-	return nativeBoolToBooleanObject(path.Type() != ObjectTypeNull)
+	// an attribute of type NULL exists, only the undefined value does not
+	return nativeBoolToBooleanObject(!isUndefined(path))
 }
 
 func attributeNotExists(args ...Object) Object {
 	path := args[0]
 
-	return nativeBoolToBooleanObject(path.Type() == ObjectTypeNull)
+	return nativeBoolToBooleanObject(isUndefined(path))
 }
 
 func attributeType(args ...Object) Object {
@@ -108,7 +109,7 @@ func attributeType(args ...Object) Object {
 			return newError("invalid type %s", strObj.Value)
 		}
 
-		return nativeBoolToBooleanObject(path.Type() == ObjectType(strObj.Value))
+		return nativeBoolToBooleanObject(!isUndefined(path) && path.Type() == ObjectType(strObj.Value))
 	}
 
 	return newError("invalid type %s", typ.Type())
@@ -176,7 +177,7 @@ func objectSize(args ...Object) Object {
 func ifNotExists(args ...Object) Object {
 	obj := args[0]
 
-	if obj == nil || obj.Type() == ObjectTypeNull {
+	if isUndefined(obj) {
 		return args[1]
 	}
 
